@@ -255,6 +255,10 @@ func buildC08(e *engine, p *rt.Package) {
 							helper = true
 						}
 					}
+					if rapid.Bool().Draw(t, "default_headers") {
+						// a caller-owned header map next to the typed options
+						clientOpts["defaultHeaders"] = map[string]any{"X-Verif-Extra": "1"}
+					}
 					res.class("pair:" + pair)
 					if helper {
 						res.class("header_helper")
